@@ -23,6 +23,7 @@ CONSTANTS Fam,        \* enabled generator actions (set of strings)
           BinOps,     \* set of binary operator names enabled
           CastTys,    \* set of cast types
           TyNames,    \* sequence of type-name strings for `is`
+          Prelude,    \* fixed leading statements (definitions the generated part can use)
           MaxD, MaxN, MaxStk, MaxStmts, MaxModStmts, MaxCtx, Ill0,
           RunVM,      \* TRUE: step the VM after Finish (machine mode); FALSE: stop at Finish
           Deviations, \* deviations the model-checked machine runs under ({} = the design)
@@ -31,9 +32,11 @@ CONSTANTS Fam,        \* enabled generator actions (set of strings)
 VARIABLES ctx, prog, ill, phase
 gvars == << ctx, prog, ill, phase, vm >>
 
+NGen == Len(prog) - Len(Prelude)                    \* statements generated so far
 Term(x, v, d, n) == [x |-> x, v |-> v, d |-> d, n |-> n]
 Ctx(kind, scope, base, ps, last) ==
-  [kind |-> kind, scope |-> scope, stk |-> << >>, stmts |-> << >>, base |-> base, ps |-> ps, last |-> last]
+  [kind |-> kind, scope |-> scope, stk |-> << >>, stmts |-> << >>, base |-> base, ps |-> ps, last |-> last,
+   used |-> 0]      \* nodes spent on finished statements / parameters of this (module) context
 
 Cur == ctx[Len(ctx)]
 SetCur(c) == ctx' = [ctx EXCEPT ![Len(ctx)] = c]
@@ -48,6 +51,12 @@ MaxOf(s) == IF s = << >> THEN 0 ELSE CHOOSE q \in {s[j] : j \in 1..Len(s)} : \A 
 RECURSIVE SumOf(_)
 SumOf(s) == IF s = << >> THEN 0 ELSE Head(s) + SumOf(Tail(s))
 
+(* nodes already committed in the enclosing contexts: their terms, one join    *)
+(* per term, and one node per open function / module                           *)
+OuterCost == SumOf([q \in 1..(Len(ctx) - 1) |->
+                      SumOf([j \in 1..Len(ctx[q].stk) |-> ctx[q].stk[j].n]) + Len(ctx[q].stk) + 1
+                        + (IF ctx[q].kind = "mod" THEN ctx[q].used ELSE 0)])
+
 (* push a term built from the top k terms; typing by evaluation *)
 Join(k, x) ==
   LET c    == Cur
@@ -58,9 +67,10 @@ Join(k, x) ==
       fresh == v.t = "err" /\ \A j \in 1..k : kids[j].v.t # "err"
       rest == SubSeq(c.stk, 1, Len(c.stk) - k)
       (* every further term on the stack costs at least one more join node *)
-      budget == n + SumOf([j \in 1..Len(rest) |-> rest[j].n]) + Len(rest)
+      budget == n + SumOf([j \in 1..Len(rest) |-> rest[j].n]) + Len(rest) + OuterCost
+                  + (IF c.kind = "mod" THEN c.used ELSE 0)
   IN /\ Len(c.stk) >= k
-     /\ c.kind = "top" => Len(prog) < MaxStmts          \* no term after the last statement
+     /\ c.kind = "top" => NGen < MaxStmts               \* no term after the last statement
      /\ c.kind = "mod" => Len(c.stmts) <= MaxModStmts   \* (a module may still get its out expression)
      /\ Len(c.stk) - k + 1 <= MaxStk
      /\ v.t # "unm" /\ d <= MaxD /\ budget <= MaxN
@@ -141,8 +151,14 @@ MkCopy == On("copy") /\ Building /\
 MkFmtList == On("fmt") /\ Building /\
              \E tp \in 1..Len(TplPool) :
                 LET k == NumPh(TplParts(TplPool[tp], << >>, FALSE))
-                IN Len(Stk) >= k /\
+                IN k >= 1 /\ Len(Stk) >= k /\         \* the grammar wants at least one argument
                    Join(k, [e |-> "fmt", form |-> "list", tpl |-> TplPool[tp],
+                            args |-> [q \in 1..k |-> Stk[Len(Stk) - k + q].x]])
+(* placeholder / argument count mismatch: a build failure, never a crash (C04) *)
+MkFmtBad == On("fmtbad") /\ Building /\
+             \E tp \in 1..Len(TplPool) : \E k \in 1..2 :
+                /\ k # NumPh(TplParts(TplPool[tp], << >>, FALSE)) /\ Len(Stk) >= k
+                /\ Join(k, [e |-> "fmt", form |-> "list", tpl |-> TplPool[tp],
                             args |-> [q \in 1..k |-> Stk[Len(Stk) - k + q].x]])
 MkFmtSingle == On("fmt1") /\ Building /\ Len(Stk) >= 1 /\
                \E sp \in 1..Len(SinglePool) :
@@ -178,7 +194,8 @@ OpenMod == On("module") /\ Building /\ Len(ctx) < MaxCtx /\
                   dv == [q \in 1..k |-> Fld(FldNames[off + q], c.stk[Len(c.stk) - k + q].v)]
               IN /\ Len(c.stk) >= k /\ \A q \in 1..k : ~Bad(dv[q].val)
                  /\ ctx' = Append([ctx EXCEPT ![Len(ctx)].stk = SubSeq(@, 1, Len(@) - k)],
-                                  Ctx("mod", << Fld(N_mod, TupleV(dv)) >>, << >>, ps, 0))
+                                  [Ctx("mod", << Fld(N_mod, TupleV(dv)) >>, << >>, ps, 0)
+                                     EXCEPT !.used = SumOf([q \in 1..k |-> c.stk[Len(c.stk) - k + q].n])])
                  /\ UNCHANGED << prog, ill, phase, vm >>
 CloseMod == On("module") /\ Building /\ Cur.kind = "mod" /\ Len(Stk) <= 1 /\ Len(Cur.stmts) >= 1 /\
             LET c == Cur
@@ -186,15 +203,15 @@ CloseMod == On("module") /\ Building /\ Cur.kind = "mod" /\ Len(Stk) <= 1 /\ Len
                 x == [e |-> "module", ps |-> c.ps, out |-> out, body |-> c.stmts]
                 par == ctx[Len(ctx) - 1]
                 v == EvalE(x, par.scope, << >>)
-                t == Term(x, v, 2, 2 + Len(c.stmts))
-             IN /\ ~Bad(v)
+                t == Term(x, v, 2, 1 + c.used + (IF Len(c.stk) = 1 THEN c.stk[1].n ELSE 0))
+             IN /\ ~Bad(v) /\ t.n <= MaxN
                 /\ Len(par.stk) < MaxStk
                 /\ ctx' = [SubSeq(ctx, 1, Len(ctx) - 1) EXCEPT ![Len(ctx) - 1].stk = Append(@, t)]
                 /\ UNCHANGED << prog, ill, phase, vm >>
 
 (* ---- statements ---------------------------------------------------------------- *)
 StmtCtx == Cur.kind \in {"top", "mod"}
-NStmts == IF Cur.kind = "top" THEN Len(prog) ELSE Len(Cur.stmts) + (MaxStmts - MaxModStmts)
+NStmts == IF Cur.kind = "top" THEN NGen ELSE Len(Cur.stmts) + (MaxStmts - MaxModStmts)
 
 MkLet == On("let") /\ Building /\ StmtCtx /\ Len(Stk) = 1 /\ NStmts < MaxStmts /\
          LET c == Cur
@@ -209,25 +226,56 @@ MkLet == On("let") /\ Building /\ StmtCtx /\ Len(Stk) = 1 /\ NStmts < MaxStmts /
                                                !.scope = IF ok THEN Append(@, Fld(pool[j], t.v)) ELSE @])
                            /\ phase' = IF ok THEN "gen" ELSE "closing"      \* nothing runs after a failing statement
                       ELSE /\ SetCur([c EXCEPT !.stk = << >>, !.last = j, !.stmts = Append(@, st),
+                                               !.used = @ + t.n + 1,
                                                !.scope = IF ok THEN Append(@, Fld(pool[j], t.v)) ELSE @])
                            /\ UNCHANGED << prog, phase >>
                  /\ UNCHANGED << ill, vm >>
 
+(* define-and-use: a generated function is bound and called on the example     *)
+(* values of its signature; a generated module is bound and instantiated       *)
+(* (without overrides, and overriding its first parameter with its own default) *)
+(* - this executes generated bodies without a product of two free statements   *)
+SigArgs(ps) ==
+  LET hits == {q \in 1..Len(SigPool) : [z \in 1..Len(SigPool[q]) |-> SigPool[q][z].nm] = ps}
+      sg == SigPool[CHOOSE q \in hits : \A r \in hits : q <= r]
+  IN [z \in 1..Len(sg) |-> Lit(sg[z].val)]
+MkLetUse == On("letuse") /\ Building /\ Cur.kind = "top" /\ Len(Stk) = 1 /\ NGen + 2 <= MaxStmts /\ Len(Names) >= Cur.last + 2 /\
+            LET c == Cur
+                t == c.stk[1]
+                n1 == Names[c.last + 1]
+                n2 == Names[c.last + 2]
+                st1 == [s |-> "let", nm |-> n1, x |-> t.x]
+            IN /\ t.v.t \in {"func", "module"}
+               /\ \E ov \in BOOLEAN :
+                    LET use == IF t.v.t = "func"
+                                 THEN [e |-> "call", fn |-> n1, args |-> SigArgs(t.v.ps)]
+                                 ELSE [e |-> "copy", sel |-> n1,
+                                       flds |-> IF ov /\ t.x.ps # << >> THEN << t.x.ps[1] >> ELSE << >>]
+                        sc1 == Append(c.scope, Fld(n1, t.v))
+                        v2 == EvalE(use, sc1, << >>)
+                    IN /\ (t.v.t = "func" => ~ov) /\ (ov => t.x.ps # << >>)
+                       /\ ~IsUnm(v2)
+                       /\ prog' = prog \o << st1, [s |-> "let", nm |-> n2, x |-> use] >>
+                       /\ SetCur([c EXCEPT !.stk = << >>, !.last = c.last + 2,
+                                           !.scope = IF Bad(v2) THEN sc1 ELSE Append(sc1, Fld(n2, v2))])
+                       /\ phase' = IF Bad(v2) THEN "closing" ELSE "gen"
+               /\ UNCHANGED << ill, vm >>
+
 (* rebinding an existing name / binding a reserved word (C10) *)
-MkBadLet == On("badlet") /\ Building /\ Cur.kind = "top" /\ Len(Stk) = 1 /\ Len(prog) < MaxStmts /\
+MkBadLet == On("badlet") /\ Building /\ Cur.kind = "top" /\ Len(Stk) = 1 /\ NGen < MaxStmts /\
             \E nm \in {Cur.scope[j].nm : j \in 1..Len(Cur.scope)} \cup (IF On("reserved") THEN Reserved ELSE {}) :
                /\ prog' = Append(prog, [s |-> "let", nm |-> nm, x |-> Cur.stk[1].x])
                /\ SetCur([Cur EXCEPT !.stk = << >>])
                /\ phase' = "closing"
                /\ UNCHANGED << ill, vm >>
 
-MkExprStmt == On("exprstmt") /\ Building /\ Cur.kind = "top" /\ Len(Stk) = 1 /\ Len(prog) < MaxStmts /\
+MkExprStmt == On("exprstmt") /\ Building /\ Cur.kind = "top" /\ Len(Stk) = 1 /\ NGen < MaxStmts /\
               /\ prog' = Append(prog, [s |-> "expr", x |-> Cur.stk[1].x])
               /\ SetCur([Cur EXCEPT !.stk = << >>])
               /\ phase' = IF Bad(Cur.stk[1].v) THEN "closing" ELSE "gen"
               /\ UNCHANGED << ill, vm >>
 
-Finish == phase \in {"gen", "closing"} /\ Len(ctx) = 1 /\ Stk = << >> /\ Len(prog) >= 1 /\
+Finish == phase \in {"gen", "closing"} /\ Len(ctx) = 1 /\ Stk = << >> /\ NGen >= 1 /\
           /\ phase' = IF RunVM THEN "run" ELSE "done"
           /\ vm' = InitVM(Translate(prog), Deviations)
           /\ UNCHANGED << ctx, prog, ill >>
@@ -235,14 +283,14 @@ Finish == phase \in {"gen", "closing"} /\ Len(ctx) = 1 /\ Stk = << >> /\ Len(pro
 RunStep == phase = "run" /\ Running(vm) /\ vm' = Step(vm) /\ UNCHANGED << ctx, prog, ill, phase >>
 RunEnd  == phase = "run" /\ ~Running(vm) /\ phase' = "done" /\ UNCHANGED << ctx, prog, ill, vm >>
 
-GenInit == /\ ctx = << Ctx("top", << >>, << >>, << >>, 0) >>
-           /\ prog = << >> /\ ill = Ill0 /\ phase = "gen"
+GenInit == /\ ctx = << Ctx("top", Run(Prelude).env, << >>, << >>, 0) >>
+           /\ prog = Prelude /\ ill = Ill0 /\ phase = "gen"
            /\ vm = InitVM(<< >>, Deviations)
 
 GenNext == \/ PushLit \/ PushVar \/ MkBin \/ MkNot \/ MkTrace \/ MkFail \/ MkCast \/ MkIs \/ MkInName
            \/ MkList \/ MkTuple \/ MkDotName \/ MkDotIdx \/ MkRange \/ MkSelect \/ MkCall \/ MkBadCall
-           \/ MkCopy \/ MkFmtList \/ MkFmtSingle \/ MkFop \/ OpenFunc \/ CloseFunc \/ OpenMod \/ CloseMod
-           \/ MkLet \/ MkBadLet \/ MkExprStmt \/ Finish \/ RunStep \/ RunEnd
+           \/ MkCopy \/ MkFmtList \/ MkFmtBad \/ MkFmtSingle \/ MkFop \/ OpenFunc \/ CloseFunc \/ OpenMod \/ CloseMod
+           \/ MkLet \/ MkLetUse \/ MkBadLet \/ MkExprStmt \/ Finish \/ RunStep \/ RunEnd
 
 (* ---- what is checked ------------------------------------------------------------ *)
 Done == phase = "done"
@@ -250,7 +298,10 @@ Final == IF RunVM THEN vm ELSE RunToEnd(vm, 4000)
 
 (* C01: executing the compiled form ends as the reference semantics says *)
 Expected == AbsOut(Run(prog))
-Agreement == Done => ((Final.res.k \notin {"unm", "fuel"} /\ Expected.k # "unm") => VMOut(Final) = Expected)
+Agreement == Done => ((Final.res.k \notin {"unm", "fuel"} /\ Expected.k # "unm") =>
+                        \/ VMOut(Final) = Expected
+                        \/ ~PrintT(<< "DISAGREE", ToJson([prog |-> prog, expect |-> Expected, vm |-> VMOut(Final),
+                                                          blame |-> IF Final.res.k = "fail" THEN << Final.res.p >> ELSE << >>]) >>))
 (* C04: no panic site is reachable; the main stack is empty at the end *)
 NoPanicAtEnd == Done => Final.res.k # "panic"
 CleanAtEnd == Done => (Final.res.k = "ok" => Final.res.clean)
